@@ -1956,6 +1956,62 @@ def rule_r22(chk, prog):
     chk.floor('C04.R22', 'reads of the output file in cli.py', n, 1)
 
 
+def rule_r23(chk, prog):
+    chk.rule('C04.R23', 'a value the code itself tests for None is not used '
+             'in arithmetic where it may still be None: in the functions of '
+             'the main-process bookkeeping (strategies, checker, cli) every '
+             '+ / - / += / comparison-by-order on an expression that the '
+             'same function compares with None is dominated by that test')
+    n = 0
+    for mn in ('strategy_hierarchical', 'strategy_ddmin', 'checker', 'cli',
+               'progress'):
+        m = prog.mod(mn)
+        for q, f in m.funcs.items():
+            if '<locals>' in q:
+                continue
+            tested = set()
+            for c in walk_no_nested(f):
+                if isinstance(c, ast.Compare) and len(c.ops) == 1 and \
+                        isinstance(c.ops[0], (ast.Is, ast.IsNot)) and \
+                        isinstance(c.comparators[0], ast.Constant) and \
+                        c.comparators[0].value is None and isinstance(
+                            c.left, (ast.Attribute, ast.Name, ast.Subscript)):
+                    tested.add(unparse(c.left))
+            if not tested:
+                continue
+            for x in walk_no_nested(f):
+                uses = []
+                if isinstance(x, ast.BinOp) and isinstance(
+                        x.op, (ast.Add, ast.Sub, ast.Mult, ast.Div,
+                               ast.FloorDiv, ast.Mod)):
+                    uses = [x.left, x.right]
+                elif isinstance(x, ast.AugAssign):
+                    uses = [x.value]
+                elif isinstance(x, ast.Compare) and any(
+                        isinstance(o, (ast.Lt, ast.LtE, ast.Gt, ast.GtE))
+                        for o in x.ops):
+                    uses = [x.left] + list(x.comparators)
+                for u in uses:
+                    t = unparse(u)
+                    if t not in tested:
+                        continue
+                    # a definite value assigned on the way also settles it
+                    n += 1
+                    facts = facts_at(f, x)
+                    ok = (f'{t} is None', False) in facts or (
+                        f'{t} is not None', True) in facts
+                    chk.check('C04.R23', f'{mn}.{q}',
+                              f'{unparse(x)[:50]} [{t}]', ok,
+                              f'"{unparse(x)[:50]}" uses "{t}", which this '
+                              'function itself compares with None, at a '
+                              'point where it may still be None (the test '
+                              'does not dominate the use): TypeError in '
+                              'the main process - a traceback and exit '
+                              'status 1 in place of a completed run',
+                              loc=m.loc(x), nontrivial=True)
+    chk.floor('C04.R23', 'arithmetic uses of None-tested values', n, 1)
+
+
 def run(tier):
     prog = Program()
     chk = Check(
@@ -2052,6 +2108,7 @@ def run(tier):
               'what the text of a leaf looks like',
               'AssertionError in the main process (or in every worker) on a legal input')
     chk.guard(rule_r22, chk, prog)
+    chk.guard(rule_r23, chk, prog)
     extra = None
     if tier == 'thorough':
         from .. import selftest
